@@ -2,13 +2,36 @@ package main
 
 import (
 	"fmt"
+	"os"
+	"sync"
 
-	"Havoc/pkg/profile/yaotl/hclwrite"
+	"Havoc/pkg/agent"
+
+	"vcheck/refdemon"
+	"vcheck/world"
 )
 
 func main() {
-	for _, src := range []string{"name=   \"q\\\"\\\\ é\"\n", "name = \"é\"\n", "name = \"\\\\ é\"\n", "name = \"\\\\é\"\n", "name = \"a\\\\ b\"\n"} {
-		out := hclwrite.Format([]byte(src))
-		fmt.Printf("%q -> %q\n", src, out)
+	dir, _ := os.MkdirTemp("", "scr")
+	defer os.RemoveAll(dir)
+	w, err := world.New(dir, world.Options{})
+	if err != nil {
+		panic(err)
 	}
+	k := world.KeysFor(1, 1, false)
+	w.Register(0x1234, k, refdemon.DefaultMeta("x"))
+	a := w.Agent(0x1234)
+	var wg sync.WaitGroup
+	P, K := 8, 2000
+	for p := 1; p <= P; p++ {
+		wg.Add(1)
+		go func(p int) {
+			defer wg.Done()
+			for i := 1; i <= K; i++ {
+				a.AddJobToQueue(agent.Job{Command: agent.COMMAND_SOCKET, RequestID: uint32(p)<<24 | uint32(i), Data: []any{1}})
+			}
+		}(p)
+	}
+	wg.Wait()
+	fmt.Println("queued", len(a.JobQueue), "request ids", len(a.Tasks), "of", P*K)
 }
